@@ -284,6 +284,8 @@ func checkC13(c *Ctx) {
 	c.rule("C13.R5", "only \\[ and \\] are unescaped by the markup parser", 1)
 	c.rule("C13.R6", "the marker position is the character count of the text built so far (measured from the builder, or every builder write paired with its increment)", 1)
 	c.rule("C13.R7", "ordinal/plural category guards select CLDR's English categories on 0…999 (constant evaluation of the extracted guard expressions)", 1)
+	c.rule("C13.R9", "TextForAttribute answers with its constant (empty) result for no attribute whose range lies inside the text: the guard's conditions, evaluated on every position/length/text length up to 3, never hold for a valid range", 1)
+	c.rule("C13.R10", "select, plural and ordinal answer with the chosen replacement's text in which the placeholders were replaced by the value's text: every successful return is replacePlaceholders(<property chosen>.toString(), <property \"value\">.toString())", 3)
 	c.rule("C13.R8", "a decimal property value is a function of the fraction's digits as written: the float stored for a decimal literal depends on a string read from the line (not only on integers parsed from it, which cannot tell 05 from 5)", 1)
 	mp := w.Pkg("markup")
 	if mp == nil {
@@ -298,6 +300,8 @@ func checkC13(c *Ctx) {
 	c13Position(c)
 	c13Ordinal(c)
 	c13Cardinal(c)
+	c13TextExact(c)
+	c13Placeholders(c)
 	c13Decimal(c)
 }
 
@@ -467,6 +471,7 @@ func c13Registry(c *Ctx) {
 		}
 	}
 	sort.Strings(all)
+	c13ProcessorOf = names
 	seenProc := map[string]string{}
 	for _, n := range all {
 		proc, has := names[n]
@@ -827,7 +832,7 @@ func evalIntExpr(info *types.Info, e ast.Expr, v types.Object, n int64) (int64, 
 	}
 	if evalLeaf != nil {
 		switch e.(type) {
-		case *ast.Ident, *ast.SelectorExpr:
+		case *ast.Ident, *ast.SelectorExpr, *ast.CallExpr:
 			if x, ok := evalLeaf(e, n); ok {
 				return x, false, true
 			}
@@ -1439,5 +1444,131 @@ func c13Cardinal(c *Ctx) {
 	}
 	if found == 0 {
 		c.undecided("C13.R7", "no cardinal category selection found (an assignment of the category \"one\" outside remainder arithmetic)")
+	}
+}
+
+// c13ProcessorOf: replacement marker name -> the processor's function name (filled by the registry rule).
+var c13ProcessorOf map[string]string
+
+// c13Placeholders: provenance of what select/plural/ordinal return on success, on the SSA form.
+func c13Placeholders(c *Ctx) {
+	w := c.W
+	mp := w.Pkg("markup")
+	// the value stored last in a local that is written once (struct locals are allocs in SSA)
+	storedIn := func(fn *ssa.Function, a *ssa.Alloc) ssa.Value {
+		var v ssa.Value
+		n := 0
+		for _, b := range fn.Blocks {
+			for _, in := range b.Instrs {
+				if st, ok := in.(*ssa.Store); ok && st.Addr == ssa.Value(a) {
+					n++
+					v = st.Val
+				}
+			}
+		}
+		if n == 1 {
+			return v
+		}
+		return nil
+	}
+	// textOf: v is X.toString() where X is result #0 of marker.GetProperty(key); returns the key value
+	textOf := func(fn *ssa.Function, v ssa.Value) (ssa.Value, string) {
+		call, ok := v.(*ssa.Call)
+		if !ok || call.Common().StaticCallee() == nil || call.Common().StaticCallee().Name() != "toString" || len(call.Common().Args) != 1 {
+			return nil, "is not the text (toString) of a property"
+		}
+		recv := call.Common().Args[0]
+		if a, ok := recv.(*ssa.Alloc); ok {
+			if sv := storedIn(fn, a); sv != nil {
+				recv = sv
+			} else {
+				return nil, "is the text of a variable assigned more than once"
+			}
+		}
+		if u, ok := recv.(*ssa.UnOp); ok && u.Op == token.MUL {
+			if a, ok := u.X.(*ssa.Alloc); ok {
+				if sv := storedIn(fn, a); sv != nil {
+					recv = sv
+				}
+			}
+		}
+		ex, ok := recv.(*ssa.Extract)
+		if !ok || ex.Index != 0 {
+			return nil, "is not the text of a property looked up on the marker"
+		}
+		gp, ok := ex.Tuple.(*ssa.Call)
+		if !ok || gp.Common().StaticCallee() == nil || gp.Common().StaticCallee().Name() != "GetProperty" || len(gp.Common().Args) != 2 {
+			return nil, "is not the text of a property looked up on the marker"
+		}
+		return gp.Common().Args[1], ""
+	}
+	isConstStr := func(v ssa.Value, want string) bool {
+		k, ok := v.(*ssa.Const)
+		return ok && k.Value != nil && k.Value.Kind() == constant.String && constant.StringVal(k.Value) == want
+	}
+	found := 0
+	for _, name := range []string{"select", "plural", "ordinal"} {
+		pn := c13ProcessorOf[name]
+		f := w.DeclByName(mp, pn)
+		if pn == "" || f == nil {
+			continue
+		}
+		fn := w.SSAFunc(f)
+		if fn == nil {
+			c.undecided("C13.R10", "no SSA for "+pn)
+			continue
+		}
+		found++
+		c.fn(f)
+		bad := ""
+		nret := 0
+		for _, b := range fn.Blocks {
+			for _, in := range b.Instrs {
+				ret, ok := in.(*ssa.Return)
+				if !ok || len(ret.Results) != 2 {
+					continue
+				}
+				if k, ok := ret.Results[1].(*ssa.Const); !ok || k.Value != nil {
+					continue // an error return
+				}
+				nret++
+				call, ok := ret.Results[0].(*ssa.Call)
+				if !ok || call.Common().StaticCallee() == nil || call.Common().StaticCallee().Name() != "replacePlaceholders" || len(call.Common().Args) != 2 {
+					bad = w.Pos(ret.Pos()) + ": the text returned on success is not the result of replacePlaceholders: a % in the replacement would be left in the line"
+					continue
+				}
+				k0, why0 := textOf(fn, call.Common().Args[0])
+				k1, why1 := textOf(fn, call.Common().Args[1])
+				switch {
+				case k0 == nil:
+					bad = w.Pos(ret.Pos()) + ": the replacement handed to replacePlaceholders " + why0
+				case k1 == nil && name != "select":
+					bad = w.Pos(ret.Pos()) + ": the value handed to replacePlaceholders " + why1
+				case isConstStr(k0, "value"):
+					bad = w.Pos(ret.Pos()) + ": the replacement handed to replacePlaceholders is the \"value\" property itself, not the replacement chosen for it"
+				case k1 != nil && !isConstStr(k1, "value"):
+					bad = w.Pos(ret.Pos()) + ": the placeholders are replaced by a property other than \"value\""
+				case k1 == nil:
+					// select: the value's text is also the key of the replacement; it must be the same SSA value
+					if call.Common().Args[1] != k0 {
+						if _, why := textOf(fn, call.Common().Args[1]); why != "" && call.Common().Args[1] != k0 {
+							bad = w.Pos(ret.Pos()) + ": the value handed to replacePlaceholders " + why + " and is not the text the replacement was chosen by"
+						}
+					}
+				}
+			}
+		}
+		key := f.Name + "/placeholders"
+		switch {
+		case nret == 0:
+			c.ob("C13.R10", key, w.Pos(f.Decl.Pos()), false, "the processor of \""+name+"\" has no successful return")
+		case bad != "":
+			c.ob("C13.R10", key, w.Pos(f.Decl.Pos()), false, bad)
+		default:
+			c.ob("C13.R10", key, w.Pos(f.Decl.Pos()), true, "every successful return is replacePlaceholders(text of the chosen replacement, text of the value)")
+		}
+	}
+	if found < 3 {
+		c.undecided("C13.R10", "only "+itoa(found)+" of the processors of select, plural, ordinal were found through the registry")
 	}
 }
